@@ -140,6 +140,7 @@ type Outcome struct {
 	EOFReads                    int
 	TransientReturned           bool
 	Extra                       map[string]any
+	DisturbTok                  []int // for each disturbance that ran: how many tokens of the script had been typed by then
 }
 
 // Hooks customise a session per property family.
@@ -1218,6 +1219,7 @@ func (s *Session) fireDisturbances(pend []*request) (fired bool) {
 		fired = true
 		s.dirty = true
 		s.count("disturb:" + d.Kind + "@" + d.Site)
+		s.Out.DisturbTok = append(s.Out.DisturbTok, s.tok)
 		s.th.add("disturb", d.Kind, d.Site)
 		s.il.add("disturb", d.Kind, d.Site)
 		s.event("DISTURB %s at %s #%d", d.Kind, d.Site, d.Nth)
